@@ -5,6 +5,17 @@ import c01
 
 def run(ctx):
     cov = c01.tunnel_jobs(ctx)
+    # the same decision table with outcomes produced by the REAL TcpForwarder (io_to_connection_error,
+    # policy refusals, resolver failure) instead of the scripted forwarder
+    s = ctx.tlc("MCTunnel", "MCTunnel.single.cfg", workers=4, timeout=900, coverage=False, name="MCTunnel.real")
+    ctx.spec_must_hold(s)
+    rr = ctx.harness("c01", ["--vectors", s["out"], "--real-forwarder"], name="c01.real", env={"VERIF_ROOT": ROOT}, timeout=1200)
+    os.remove(s["out"])
+    if rr["counters"].get("vectors", 0) < 5:
+        raise ToolError("real-forwarder job ran only %d vectors" % rr["counters"].get("vectors", 0))
+    cov["real_forwarder_vectors"] = rr["counters"]["vectors"]
+    cov["evaluations"] += rr["evaluations"]
+    cov["traces_validated_against_impl"] += rr["evaluations"]
     cov["rule"] = ("same vectors as C01 (TLC-enumerated Tunnel.tla points replayed into the real tunnel over HTTP/1.1 and HTTP/2); the oracle is the "
                    "specification's FinalSet: status 200/407/502, X-Warning 300/301/302/310/311, X-Adguard-Vpn-Error presence, exactly one response "
                    "per request, reserved authorities and port-less CONNECTs never reaching the connector; outbound outcomes include refused, "
@@ -12,6 +23,6 @@ def run(ctx):
                    "failure, EMFILE, multiplexer creation failure and ICMP not configured. Non-trivial = not (valid credentials and successful connect).")
     return ctx.finish("model_checking", cov, assumptions=[
         "HTTP/3 is not driven",
-        "outbound outcomes are injected through the scripted forwarder; the mapping of real socket errors to these outcomes (io_to_connection_error) is exercised by C03's real TcpForwarder runs",
+        "most outbound outcomes are injected through the scripted forwarder; ok / refused / ENETUNREACH / policy refusals / resolver failure are additionally produced by the real TcpForwarder on loopback (connect timeout and EHOSTUNREACH cannot be produced offline)",
         "trusted: TLC, scripted forwarder / HTTP clients, verif::tunnel door",
     ])
